@@ -211,7 +211,7 @@ type c15Input struct {
 }
 
 func c15E2(tier string, o *E2Out) {
-	o.Rule = "E2: two-file (thorough three-file) chains: (a) every documented single-valued option of the table (21 per process, 10 per project), one at a time, base in {unset,v1} x override in {unset,v2}, on a process present in both files that also carries untouched settings, the later file naming only that option or restating the whole definition, or naming another option of the same block (shell, availability, shutdown, liveness_probe); (b) environment entry A with every value of {\"\", x, a=b, 'x y', '\"q\"', k=v=w, '%Y-%m-%d 100%', '$HOME/{{.X}}\\n'} or absent in base x override, per process and global, next to an untouched entry B; (c) depends_on keys and processes only-in-base / only-in-override / both; (d) extends vs naming both files (working_dir empty / relative / absolute in the base). Oracle: the merged project equals a single-file load of the reference fold (later wins per key, environment split at the first '='). Non-trivial = both files mention something."
+	o.Rule = "E2: two-file (thorough three-file) chains: (a) every documented single-valued option of the table (21 per process, 10 per project), one at a time, base in {unset,v1} x override in {unset,v2}, on a process present in both files that also carries untouched settings, the later file naming only that option or restating the whole definition, or naming another option of the same block (shell, availability, shutdown, liveness_probe); (b) environment entry A with every value of {\"\", x, a=b, 'x y', '\"q\"', k=v=w, '%Y-%m-%d 100%', '$HOME/{{.X}}\\n'} or absent in base x override, per process and global, next to an untouched entry B; (c) depends_on keys and processes only-in-base / only-in-override / both; (d) extends vs naming both files (working_dir empty / relative / absolute in the base); (e) three-level extends chains top -> mid -> base, the files side by side or each level one directory deeper than the file that extends it, against the explicit list base,mid,top. Oracle: the merged project equals a single-file load of the reference fold (later wins per key, environment split at the first '='). Non-trivial = both files mention something."
 	o.Exhaustive = true
 	dir, _ := os.MkdirTemp("", "vh-c15-")
 	defer os.RemoveAll(dir)
@@ -515,37 +515,51 @@ func c15ExtendsChain(o *E2Out, dir string, idx *int) {
 		base["processes"].(cfgMap)["q"] = cfgMap{"command": "q"}
 		mid := mk("mid")
 		top := cfgMap{"version": "0.5", "processes": cfgMap{"p": cfgMap{"namespace": "topns"}}}
-		midE, topE := mid.clone(), top.clone()
-		midE["extends"] = "base.yaml"
-		topE["extends"] = "mid-ext.yaml"
-		fm := map[string]string{"chain/base.yaml": yamlOf(base), "chain/mid-ext.yaml": yamlOf(midE), "chain/top-ext.yaml": yamlOf(topE),
-			"chain/mid.yaml": yamlOf(mid), "chain/top.yaml": yamlOf(top)}
-		in := c15Input{Kind: "extends-chain", Option: optPath, Base: yamlOf(base), Override: yamlOf(midE), Third: yamlOf(topE)}
-		o.Evaluations++
-		o.Distinct++
-		ext, err := loadFiles(dir, fm, []string{"chain/top-ext.yaml"}, false)
-		both, err2 := loadFiles(dir, fm, []string{"chain/base.yaml", "chain/mid.yaml", "chain/top.yaml"}, false)
-		if err != nil || err2 != nil {
-			o.violation("C15", "extends-differs:load-error", fmt.Sprintf("extends chain: %v / explicit: %v", err, err2), in)
-			continue
-		}
-		chainDir := filepath.Join(dir, "chain")
-		for n, pc := range both.Processes {
-			if pc.WorkingDir == "" {
-				pc.WorkingDir = chainDir
-				both.Processes[n] = pc
+		// "flat": the three files side by side; "nested": each level one directory deeper than the file that
+		// extends it - a relative extends: is resolved against the directory of the file that states it
+		for _, layout := range []string{"flat", "nested"} {
+			midE, topE := mid.clone(), top.clone()
+			midE["extends"] = "base.yaml"
+			topE["extends"] = "mid-ext.yaml"
+			fm := map[string]string{"chain/base.yaml": yamlOf(base), "chain/mid-ext.yaml": yamlOf(midE), "chain/top-ext.yaml": yamlOf(topE),
+				"chain/mid.yaml": yamlOf(mid), "chain/top.yaml": yamlOf(top)}
+			topExt, explicit := "chain/top-ext.yaml", []string{"chain/base.yaml", "chain/mid.yaml", "chain/top.yaml"}
+			if layout == "nested" {
+				midE["extends"] = "deep/base.yaml"
+				topE["extends"] = "sub/mid-ext.yaml"
+				fm = map[string]string{"chain2/sub/deep/base.yaml": yamlOf(base), "chain2/sub/mid-ext.yaml": yamlOf(midE), "chain2/top-ext.yaml": yamlOf(topE),
+					"chain2/sub/mid.yaml": yamlOf(mid), "chain2/top.yaml": yamlOf(top)}
+				topExt, explicit = "chain2/top-ext.yaml", []string{"chain2/sub/deep/base.yaml", "chain2/sub/mid.yaml", "chain2/top.yaml"}
 			}
-		}
-		for n, pc := range ext.Processes { // processes defined only by the top file keep an empty dir
-			if pc.WorkingDir == "" {
-				pc.WorkingDir = chainDir
-				ext.Processes[n] = pc
+			in := c15Input{Kind: "extends-chain:" + layout, Option: optPath, Base: yamlOf(base), Override: yamlOf(midE), Third: yamlOf(topE)}
+			o.Evaluations++
+			o.Distinct++
+			ext, err := loadFiles(dir, fm, []string{topExt}, false)
+			both, err2 := loadFiles(dir, fm, explicit, false)
+			if err != nil || err2 != nil {
+				o.violation("C15", "extends-differs:load-error", fmt.Sprintf("extends chain (%s): %v / explicit: %v", layout, err, err2), in)
+				continue
 			}
-		}
-		gv, wv := mergedView(ext), mergedView(both)
-		if gv != wv {
-			field := c15Diff(gv, wv)
-			o.violation("C15", "extends-differs:chain:"+field, fmt.Sprintf("three-level extends chain gives %s\n explicit list base,mid,top gives %s", c15Excerpt(gv, field), c15Excerpt(wv, field)), in)
+			chainDir := filepath.Join(dir, "chain")
+			for n, pc := range both.Processes {
+				// the default working directory follows the place of the files, which the nested layout varies on
+				// purpose: it is taken out of the comparison there (part (d) compares it)
+				if pc.WorkingDir == "" || layout == "nested" {
+					pc.WorkingDir = chainDir
+					both.Processes[n] = pc
+				}
+			}
+			for n, pc := range ext.Processes { // processes defined only by the top file keep an empty dir
+				if pc.WorkingDir == "" || layout == "nested" {
+					pc.WorkingDir = chainDir
+					ext.Processes[n] = pc
+				}
+			}
+			gv, wv := mergedView(ext), mergedView(both)
+			if gv != wv {
+				field := c15Diff(gv, wv)
+				o.violation("C15", "extends-differs:chain:"+field, fmt.Sprintf("three-level extends chain (%s) gives %s\n explicit list base,mid,top gives %s", layout, c15Excerpt(gv, field), c15Excerpt(wv, field)), in)
+			}
 		}
 	}
 }
